@@ -11,9 +11,12 @@ EXPL = ("R07.1 the four NameStyle implementations are read as definitions generi
         "table: in the MIR of Concatenated::MAYBE_VAL every switch arm k evaluates ConcatenatedLen<S,T,k> with the same k, arms are "
         "contiguous from 0 to M, HAVE_VAL's bound equals M, LEN = S::LEN + T::LEN, extend is S then T, const_str_value reads MAYBE_VAL "
         "only under HAVE_VAL. W07 for every total length 0..=100 (several splits), beyond the threshold and for nested chains the "
-        "compiler's constant evaluator confirms MAYBE_VAL / HAVE_VAL / LEN against literal expectations. Not decided (and not papered "
-        "over): the proc macro's string-level naming functions (metric_name, prefix inflection, override precedence) over all type "
-        "shapes: deciding them needs running the macro on a corpus, which is a test, not static analysis.")
+        "compiler's constant evaluator confirms MAYBE_VAL / HAVE_VAL / LEN against literal expectations. R07.2 (on the proc macro's own "
+        "MIR) the generator pairs each style's identifier with the name computed for the same style and interpolates the four "
+        "identifiers in the order of the trait's GAT parameters; R07.4 the macro's style table: each NameStyle arm calls the matching "
+        "inflector function, snake/kebab prefixes get their separator, an explicit `name` wins over inflection. Not decided (and not "
+        "papered over): the string results of Inflector and the composition of prefixes over all type shapes - deciding them needs "
+        "running the macro on a corpus, which is a test, not static analysis.")
 CORE = "metrique_core"
 STYLE_PARAM = {"Identity": "ID", "PascalCase": "PASCAL", "SnakeCase": "SNAKE", "KebabCase": "KEBAB"}
 
@@ -150,6 +153,128 @@ def run(ctx):
                         true_t = t["otherwise"]
                         okh = bool(use_bb) and all(dominates(b, true_t, u, dom) for u in use_bb)
         ctx.check(okh, "R07.3", fnkey(b) + "#const-value-only-under-have-val", loc(b), "const_str_value reads MAYBE_VAL without HAVE_VAL being true")
+    # ------------------------------------------------------------------ R07.4 the macro's style table (arm <-> inflector function)
+    MAC = "metrique_macro"
+    WANT = {"PascalCase": "to_pascal_case", "SnakeCase": "to_snake_case", "KebabCase": "to_kebab_case", "Preserve": "to_string"}
+    SEP = {"SnakeCase": 95, "KebabCase": 45}
+
+    def arm_targets(b):
+        for i in b.live_blocks():
+            t = b.term(i)
+            if t["k"] == "switch":
+                for s_ in b.stmts(i):
+                    if s_["k"] == "assign" and s_["rv"]["k"] == "discr" and s_["rv"]["place"]["l"] == 1 and s_["rv"].get("adt", "").endswith("inflect::NameStyle"):
+                        vm = {n: d for d, n in s_["rv"]["variants"]}
+                        tg = {v: tb for v, tb in t["targets"]}
+                        return i, {n: tg.get(d, t["otherwise"]) for n, d in vm.items()}
+        return None, {}
+
+    macro_bodies = {b.name: b for b in F.all_bodies(MAC) if b.path.startswith("metrique_macro::inflect::NameStyle::") and b.kind == "AssocFn"}
+    ctx.floor("R07.4", "macro NameStyle helpers (apply / apply_prefix / to_word)", len([n for n in ("apply", "apply_prefix", "to_word") if n in macro_bodies]), 3)
+    for fn in ("apply", "apply_prefix"):
+        b = macro_bodies.get(fn)
+        if b is None:
+            continue
+        sw, arms = arm_targets(b)
+        ctx.check(set(arms) == set(WANT), "R07.4", fnkey(b) + "#arms", loc(b), "NameStyle::%s does not match on the four styles" % fn)
+        for style, tb in arms.items():
+            others = [x for n, x in arms.items() if n != style]
+            region = b.reachable(tb) - set().union(*[b.reachable(o) - b.reachable(tb) for o in others]) if others else b.reachable(tb)
+            mine = [c for c in b.calls() if c.bb in b.reachable(tb) and not any(c.bb in b.reachable(o) for o in others) and (c.is_in("inflector", c.name) or c.name == "to_string")]
+            names = sorted({c.name for c in mine if c.name.startswith("to_")})
+            ctx.check(names == [WANT.get(style)], "R07.4", fnkey(b) + "#%s-arm" % style, loc(b, tb),
+                      "style %s is inflected with %s, expected %s: every field name declared in that style would be emitted in another style" % (style, names, WANT.get(style)),
+                      "%s -> %s" % (style, WANT.get(style)))
+            if fn == "apply_prefix":
+                pushes = [c for c in b.calls() if c.name == "push" and c.def_.startswith("alloc::string::String") and c.bb in b.reachable(tb) and not any(c.bb in b.reachable(o) for o in others)]
+                got = sorted({(op_const(c.args[1]) or {}).get("int") for c in pushes})
+                want = [SEP[style]] if style in SEP else []
+                ctx.check(got == want, "R07.4", fnkey(b) + "#%s-separator" % style, loc(b, tb),
+                          "prefix separator for style %s is %s, expected %s" % (style, [chr(x) if isinstance(x, int) else x for x in got], [chr(x) for x in want]))
+    b = macro_bodies.get("to_word")
+    if b is not None:
+        sw, arms = arm_targets(b)
+        words = {}
+        for style, tb in arms.items():
+            for s_ in b.stmts(tb):
+                if s_["k"] == "assign" and s_["lhs"]["l"] == 0 and s_["rv"]["k"] == "use":
+                    words[style] = (op_const(s_["rv"]["op"]) or {}).get("str")
+        ctx.check(len(set(words.values())) == 4 and None not in words.values(), "R07.4", fnkey(b) + "#distinct-words", loc(b),
+                  "the identifier suffixes of the four styles are not distinct (%s): generated const-string types would collide" % words)
+    mn = [x for x in F.all_bodies(MAC) if x.name in ("metric_name", "inflect_no_prefix") and x.path.startswith("metrique_macro::inflect::")]
+    ctx.floor("R07.4", "macro name functions", len(mn), 2)
+    for b in mn:
+        ov = [c for c in b.calls() if c.name == "name_override"]
+        ap = [c for c in b.calls() if c.name in ("apply", "apply_prefix", "name") and c.bb not in [o.bb for o in ov]]
+        okp = False
+        for c in ov:
+            for sw_, tg, oth in switch_on_call_result(b, c):
+                some_t = tg.get(1)
+                if some_t is not None:
+                    reach = b.reachable(some_t)
+                    okp = not any(x.bb in reach for x in ap if x.name != "name")
+        ctx.check(okp, "R07.4", fnkey(b) + "#explicit-name-wins", loc(b), "an explicit `name = ...` override is inflected / prefixed like a derived name")
+    # ------------------------------------------------------------------ R07.2 generator <-> trait positional agreement
+    gen = [x for x in F.all_bodies(MAC) if x.name == "make_inflect_base"]
+    ctx.floor("R07.2", "Inflect type generator", len(gen), 1)
+    for b in gen:
+        pr = Prov(b)
+
+        def style_of(op):
+            """NameStyle constants in the transitive inputs of an operand (through opaque calls such as format!/mk_ident)"""
+            st, seen, work = set(), set(), [op]
+            while work:
+                o_ = work.pop()
+                for x in pr.operand(o_):
+                    if x[0] == "agg" and isinstance(x[1], str) and x[1].endswith("inflect::NameStyle"):
+                        st.add(x[2])
+                    elif x[0] in ("call", "via") and x[1] not in seen:
+                        seen.add(x[1])
+                        t = b.term(x[1])
+                        nm = (t.get("callee") or {}).get("name")
+                        if nm == "apply":
+                            continue          # the sanitised identifier base (always PascalCase) is not a style choice
+                        work.extend(t.get("args", []))
+            return sorted(st)
+        cs = [c for c in b.calls() if c.name == "const_str"]
+        ctx.check(len(cs) == 4, "R07.2", fnkey(b) + "#four-const-strs", loc(b), "expected four ConstStr definitions, found %d" % len(cs))
+        ident_style = {}
+        for c in cs:
+            si, sv = style_of(c.args[0]), style_of(c.args[1])
+            # the ident also carries PascalCase from the sanitised base: remove the style used for `ident_base`
+            base_styles = set()
+            for x in b.calls():
+                if x.name == "apply":
+                    base_styles |= set(style_of(x.args[0]))
+            si2 = [x for x in si if x not in base_styles] or si
+            ok_ = len(sv) == 1 and sv[0] in si
+            ctx.check(ok_, "R07.2", fnkey(b) + "#ident-and-value-same-style@%s" % (sv[0] if sv else "?"), loc(b, c.bb),
+                      "a ConstStr named for style %s carries the name computed for style %s" % (si2, sv))
+            l = op_local(c.args[0])
+            if sv:
+                from mq.prov import single_def_ref_target
+                tgt = single_def_ref_target(b, l) if l is not None else None
+                if tgt is not None:
+                    ident_style[tgt["l"]] = sv[0]
+        # interpolation order between the last push_lt and push_gt
+        lts = [c for c in b.calls() if c.name == "push_lt"]
+        gts = [c for c in b.calls() if c.name == "push_gt"]
+        if lts and gts:
+            dom = b.dominators()
+            last_lt = max(lts, key=lambda c: len(dom.get(c.bb, ())))
+            last_gt = max(gts, key=lambda c: len(dom.get(c.bb, ())))
+            toks = [c for c in b.calls() if c.name == "to_tokens" and "Ident" in (c.self_ty or "") and dominates(b, last_lt.bb, c.bb, dom) and dominates(b, c.bb, last_gt.bb, dom)]
+            toks.sort(key=lambda c: len(dom.get(c.bb, ())))
+            order = []
+            from mq.prov import single_def_ref_target
+            for c in toks:
+                l = op_local(c.args[0])
+                tgt = single_def_ref_target(b, l) if l is not None else None
+                order.append(ident_style.get(tgt["l"]) if tgt is not None else None)
+            want = ["Preserve" if p == "ID" else {"PASCAL": "PascalCase", "SNAKE": "SnakeCase", "KEBAB": "KebabCase"}[p] for p in [x.upper() for x in gat.get("Inflect", [])]] if gat.get("Inflect") else []
+            ctx.check(order == want, "R07.2", fnkey(b) + "#interpolation-order-matches-trait", loc(b),
+                      "the generated `Inflect<..>` arguments are in order %s but the trait declares %s: a name style would select another style's string" % (order, want),
+                      "order %s" % order)
     # ------------------------------------------------------------------ W07
     res = witness.run_witness()
     witness.report_group(ctx, "W07", res, "concat", "concatenation obligations (every total length 0..=100, beyond threshold, nested)")
